@@ -237,6 +237,11 @@ def check_model_against_spec(c, model, case):
                     if any(_classify_eq_mismatch(e_, shk) == "equation-value:transition-shock-with-time-shift" for e_ in spec["teqs"]):
                         vio("equation-value:transition-shock-with-time-shift", f"{which} equator raised {type(exc).__name__}: {exc} (an equation holds a transition shock with a time shift)")
                         return
+                    if isinstance(exc, ValueError) and "Integers to negative integer powers" in str(exc):
+                        # numpy's rule for integer scalars: a function of integer literals (minimum(3,3), abs(-2), ...) returns a numpy
+                        # integer, which cannot be raised to a negative integer power (a Python int or any float can)
+                        vio("equation-eval:function-of-integer-literals-to-negative-integer-power", f"{which} equator raised {type(exc).__name__}: {exc}")
+                        return
                     vio(f"equation-eval:raised:{type(exc).__name__}", f"{which} equator raised {type(exc).__name__}: {exc}")
                     return
                 scale = 1.0 + np.abs(want)
@@ -350,6 +355,8 @@ def directed_cases():
     }
     # known finding: a transition shock with a time shift, e_y[-1], becomes (e_y+ant_e_y)[-1] -- an index, not a shift
     variants["shock-with-lag"] = E.bin_("+", E.bin_("*", E.par("k"), E.var("y", -1)), E.bin_("*", E.num(0.5), E.var("e_y", -1)))
+    # known finding: a function of integer literals raised to a negative integer power (numpy integer ** negative integer)
+    variants["integer-function-to-negative-power"] = E.bin_("+", E.bin_("*", E.par("k"), E.var("y", -1)), E.bin_("^", E.call("maximum", E.num(2.0), E.num(3.0)), E.num(-1.0)))
     for name, rhs in variants.items():
         spec = json.loads(json.dumps(base))
         spec["teqs"] = [
